@@ -519,6 +519,15 @@ def c12_streams(tier, rng, ctx):
     for a, b in [("/é/a", "/b"), ("/é", "/é/a/z"), ("/é/a", "/é/a"), ("/é", "/x/y"), ("/l", "/é/a"), ("/é/a/f", "/é")]:
         for c2 in ["move_p", "copy"]:
             hs.append("\t".join(["hist", "m", envspec(MEM_ENV)] + pre + [op(c2, a, b), op("exists", "/"), op("all_paths", "/")]))
+    # deep trees (beyond the iterator's default cap of 50 open descriptors), leaf directory empty or not, every traversal-based call
+    for depth in ([51, 64] if tier == "quick" else [49, 50, 51, 52, 64, 100]):
+        for leaf in ["empty", "file"]:
+            deep = "/" + "/".join(["d"] * depth)
+            mk = [op("mkdir_p", deep)] + ([op("mkfile", deep + "/f")] if leaf == "file" else [])
+            for call in ["entries:%s:" % hx("/"), "entries:%s:sort" % hx("/"), "entries:%s:cf" % hx("/"), "entries:%s:dirs,cf" % hx("/d/d"),
+                         op("chown", "/", 5, 6), op("chmod", "/d", 0o700), op("copy", "/d", "/e"), op("all_paths", "/"), op("all_dirs", "/d"),
+                         op("all_files", "/"), op("remove_all", "/d/d"), op("move_p", "/d", "/m")]:
+                hs.append("\t".join(["hist", "m", envspec(MEM_ENV)] + mk + [call, op("exists", "/"), op("is_dir", deep)]))
     rh = random_histories(rng, 2000 if tier == "quick" else 20000, 10, tier)
     bad = lambda l, o: ("PANIC" in o or "POISONED" in o or "CRASH" in o or "HANG" in o)
     return [
